@@ -11,7 +11,7 @@ UNITS = {
     "setup": dict(engine="verus", serves=["C17"]),
     "panics": dict(engine="verus", serves=["C13"]),
     "panic_bytes": dict(engine="kani", serves=["C13", "C14"], path="kani/panic_bytes", kind="Kani harnesses over verbatim byte-level slices (bounded UTF-16 frame; full-domain byte map)"),
-    "conn":   dict(engine="verus", serves=["C07", "C13", "C03", "C01"]),
+    "conn":   dict(engine="verus", serves=["C07", "C13", "C03", "C01", "C05"]),
     "actors": dict(engine="verus", serves=["C09", "C10", "C11", "C13", "C07"]),
     "sign": dict(engine="verus", serves=["C04", "C10", "C13", "C15"]),
     "keystore":  dict(engine="verus", serves=["C08", "C13"]),
@@ -176,7 +176,7 @@ PROPERTIES["C17"] = dict(
 )
 
 PROPERTIES["C05"] = dict(
-    units=["handler"],
+    units=["handler", "conn"],   # conn: Claims::from_audit_entry - the elevation flag the claims header states is the one the kernel recorded,
     technique="Verus contracts on the extracted real functions (header-map view; precondition on the upstream write primitive)",
     level_text="Deductive proof (Verus/Z3) for every client header set: the request handed to the upstream write primitive has exactly one "
                "x-ms-azure-host-claims value, equal to the JSON stating whether the ATTRIBUTED caller is elevated, exactly one "
